@@ -29,6 +29,7 @@ def plan(tier, seed):
     items = [dict(date=str(d), k=k, seed=seed) for d in pick for k in range(8 if tier == "quick" else 16)]
     # the quantifier names "up to ten children": families with 0..10 children along a wage grid
     items += [dict(date=str(d), k=100, seed=seed, children_sweep=True) for d in pick]
+    items += [dict(date=str(d), k=101, seed=seed, domain=True) for d in pick]
     return items
 
 
@@ -93,6 +94,9 @@ def run_item(item):
         df = pd.concat(parts, ignore_index=True)
         for col in parts[0].columns:
             df[col] = df[col].astype(parts[0][col].dtype)
+    elif item.get("domain"):
+        corner = "domain_sweep"
+        df = popgen.domain_sweep(rng, d, params)
     else:
         df = popgen.population(rng, d, n_hh=int(rng.integers(6, 14)), params=params, corner=corner)
         df = popgen.branch_reach(rng, df, d, params)
